@@ -314,22 +314,38 @@ FAILS = warm != cold
 def dispatch_tables(tier='quick', seed=0):
     """E4: the dispatch state is a function of the current _lsb0 alone"""
     fns, by_name, trees = load()
-    f = fns['bitstring_options.Options.set_lsb0']
-    dicts = {}
-    for n in ast.walk(f.node):
-        if isinstance(n, ast.Assign) and isinstance(n.value, ast.Dict) and isinstance(n.targets[0], ast.Name) \
-                and n.targets[0].id in ('lsb0_methods', 'msb0_methods'):
-            d = {}
-            for k, v in zip(n.value.keys, n.value.values):
-                d[ast.unparse(k)] = {ast.literal_eval(kk): ast.unparse(vv) for kk, vv in zip(v.keys, v.values)}
-            dicts[n.targets[0].id] = d
+    # E4a is decided on the real objects (the option has two values, so this is complete and does not depend on how set_lsb0 is
+    # written): the class attributes after set_lsb0(v) are a function of v alone -- toggling there and back restores every one.
+    import bitstring
+    import bitstring.bitstore, bitstring.bits, bitstring.bitarray_, bitstring.bitstream
+    classes = [bitstring.bitstore.BitStore, bitstring.Bits, bitstring.BitArray, bitstring.ConstBitStream, bitstring.BitStream]
+
+    def snap():
+        return {(c.__name__, a): v for c in classes for a, v in vars(c).items() if callable(v) or isinstance(v, (staticmethod, classmethod))}
+    saved = bitstring.options.lsb0
+    try:
+        bitstring.options.lsb0 = False
+        s0 = snap()
+        bitstring.options.lsb0 = True
+        s1 = snap()
+        bitstring.options.lsb0 = False
+        s2 = snap()
+        bitstring.options.lsb0 = True
+        s3 = snap()
+        bitstring.options.lsb0 = True        # (setting the value it already has changes nothing)
+        s4 = snap()
+    finally:
+        bitstring.options.lsb0 = saved
     obligations = []
-    same_keys = set(dicts) == {'lsb0_methods', 'msb0_methods'} and \
-        {c: set(m) for c, m in dicts['lsb0_methods'].items()} == {c: set(m) for c, m in dicts['msb0_methods'].items()}
-    obligations.append({'id': 'C09/bitstring_options.Options.set_lsb0/E4-both-modes-rebind-the-same-attributes', 'backend': 'static',
+    same_keys = s0 == s2 and s1 == s3 == s4 and set(s0) == set(s1)
+    obligations.append({'id': 'C09/bitstring_options.Options.set_lsb0/E4-both-modes-rebind-the-same-attributes', 'backend': 'native-enumeration',
                         'kind': 'public', 'verdict': 'proved' if same_keys else 'refuted', 'qualname': 'bitstring_options.Options.set_lsb0',
-                        'clause': 'E4a', 'shape': ''})
-    rebound = {a for m in dicts.get('msb0_methods', {}).values() for a in m}
+                        'clause': 'E4a', 'shape': '',
+                        **({} if same_keys else {'witness': {'reproduced': True, 'qualname': 'bitstring_options.Options.set_lsb0', 'shape': '',
+                                                             'python': 'import bitstring\nfrom bitstring.bitstore import BitStore\n'
+                                                                       'def snap():\n    return {(c.__name__, a): v for c in (BitStore, bitstring.Bits, bitstring.BitArray) for a, v in vars(c).items() if callable(v)}\n'
+                                                                       'bitstring.options.lsb0 = False; a = snap(); bitstring.options.lsb0 = True; bitstring.options.lsb0 = False\nFAILS = snap() != a\n'}})})
+    rebound = {a for (c, a) in s0 if s0[(c, a)] is not s1.get((c, a))}
     # no other statement assigns these attributes on the classes
     offenders = []
     for q, g in fns.items():
